@@ -242,6 +242,11 @@ def run_shard(spec):
             do(["x" + ch + "y"])
             obs["singles"] += 1
         do([""])
+        # runs of `$` before `{`: only an odd run makes the brace an interpolation
+        for n_dollars in range(1, 8):
+            do(["$" * n_dollars + "{x}"])
+            do(["a" + "$" * n_dollars + "{x}b"])
+            do(["p", "$" * n_dollars + "{q}"])
     elif kind == "keywords":
         for kw in KEYWORDS:
             do([kw])
